@@ -226,7 +226,13 @@ func genC07(t *rapid.T) *Case {
 		c.Ops = append(c.Ops,
 			Op{K: "yield", S: callee, Ref: "inv:-1:99", Args: []V{VStr("late")}},
 			Op{K: "subscribe", S: callee, URI: "verif.after"},
-			Op{K: "advance", Ns: pick(t, []int64{1e9, 59e9, 60e9}, "h1")},
+			Op{K: "advance", Ns: pick(t, []int64{1e9, 59e9, 60e9}, "h1")})
+		if pct(t, 40, "holdresume") {
+			// the caller was only momentarily slow: it reads again within the retry
+			// period and must then get the result at the next retry
+			c.Ops = append(c.Ops, Op{K: "resume", S: silent})
+		}
+		c.Ops = append(c.Ops,
 			Op{K: "publish", S: other, URI: "verif.after", Opts: []KV{{"acknowledge", VBool(true)}}},
 			Op{K: "advance", Ns: 121e9},
 			Op{K: "publish", S: other, URI: "verif.after", Opts: []KV{{"acknowledge", VBool(true)}}})
